@@ -3,7 +3,7 @@
 Theorem side: Props/C20.v over Report/Lprun.v (hand model of
 LineProfilerMagics.lprun + runctx, reusing the channel model of C11).
 Tie: sequences of 1-3 real %lprun invocations inside an in-process IPython
-(driver harness/drivers/c20.py), over option combinations (-f several, -m, -r,
+(driver harness/drivers/c20.py), over option combinations (-f several, -m incl. dotted sub-module names, -r,
 -s, -u good/bad, -D, -T, bad names), statement outcomes (return, SystemExit,
 KeyboardInterrupt, ValueError), calls to unnamed functions, with and without a
 pre-existing builtins.profile.  Each invocation's observation is compared inside
@@ -39,9 +39,15 @@ FUN = {
     20: dict(expr='c20m_b.b0', call='c20m_b.b0(%d)', shape=('Loop', 6)),
     21: dict(expr='c20m_b.wb', call='c20m_b.wb(%d)', shape=('Wrap', 20)),
     22: dict(expr='c20m_b.KB.bm', call='c20m_b.KB().bm(%d)', shape=('Loop', 7)),
+    # a package: functions of __init__ (30, 31) and of its sub-module (32, 33)
+    30: dict(expr='c20pkg.pinit', call='c20pkg.pinit(%d)', shape=('Loop', 8)),
+    31: dict(expr='c20pkg.pw', call='c20pkg.pw(%d)', shape=('Wrap', 30)),
+    32: dict(expr='c20pkg.sub.ps0', call='c20pkg.sub.ps0(%d)', shape=('Loop', 9)),
+    33: dict(expr='c20pkg.sub.KS.pm', call='c20pkg.sub.KS().pm(%d)', shape=('Loop', 10)),
 }
-MODS = {'c20m_a': [10, 11, 12], 'c20m_b': [20, 21, 22]}
-CALLABLE = [0, 1, 2, 3, 10, 11, 12, 20, 21, 22]
+# what add_module registers for each name -m can take; a dotted name means the sub-module, not its parent package
+MODS = {'c20m_a': [10, 11, 12], 'c20m_b': [20, 21, 22], 'c20pkg': [30, 31], 'c20pkg.sub': [32, 33]}
+CALLABLE = [0, 1, 2, 3, 10, 11, 12, 20, 21, 22, 30, 31, 32, 33]
 RAISER = {'SysExit': 4, 'KbdInt': 5, 'ExcOther': 6}
 UNITS = ['1e-3', '1e-6', '1', '2.5e-07', '1e-9']
 _counter = [0]
@@ -123,7 +129,7 @@ def mk_inv(f=(), m=(), u=None, r=False, s=False, D=False, T=False, top=((0, 2),)
 
 def rand_inv(rnd):
     f = rnd.sample(CALLABLE + [4, 5, 6], rnd.choice([0, 1, 1, 2, 3]))
-    m = rnd.sample(sorted(MODS), rnd.choice([0, 0, 0, 1, 1, 2]))
+    m = rnd.sample(sorted(MODS), rnd.choice([0, 0, 1, 1, 1, 2]))
     if not f and not m and rnd.random() < 0.8:
         f = [rnd.choice(CALLABLE)]
     top = [(rnd.choice(CALLABLE), rnd.choice([0, 1, 2, 3, 5, 17])) for _ in range(rnd.randint(1, 4))]
@@ -149,6 +155,9 @@ def gen_cases(tier, rnd):
                     cases.append(dict(pre_profile=pre, invs=[mk_inv(
                         f=f, m=m, u=('1e-3' if full else None), r=full, s=full, D=full, T=full,
                         top=[(0, 3), (1, 2), (21, 2), (10, 1)], outcome=outcome)]))
+        # dotted module names: the sub-module, the package, both; the statement calls functions of both
+        for m in (['c20pkg.sub'], ['c20pkg'], ['c20pkg.sub', 'c20pkg'], ['c20m_a', 'c20pkg.sub']):
+            cases.append(dict(pre_profile=pre, invs=[mk_inv(m=m, r=True, T=True, top=[(32, 3), (33, 2), (31, 2), (30, 1), (10, 1)])]))
         # errors before anything is touched, then a good one
         cases.append(dict(pre_profile=pre, invs=[mk_inv(f=[0], bad_f=True), mk_inv(f=[0], bad_m=True), mk_inv(f=[0], u='abc'),
                                                  mk_inv(f=[0], r=True)]))
@@ -373,6 +382,8 @@ def run(tier, seed):
                 hist['options']['u'] = hist['options'].get('u', 0) + 1
             if iv['a_m']:
                 hist['options']['m'] = hist['options'].get('m', 0) + 1
+            if ' -m c20pkg.sub' in ' ' + iv['line']:
+                hist['options']['m_dotted'] = hist['options'].get('m_dotted', 0) + 1
             if len(iv['a_f']) > 1:
                 hist['options']['f_several'] = hist['options'].get('f_several', 0) + 1
         if why or i in flagged_other:
